@@ -5,7 +5,8 @@
    duplicate-free common grid, every curve sampled on an ordered part of it) —
    the assurance that the implementation behaves like a function of the
    content is the correspondence run. *)
-From Coq Require Import List Bool Lia.
+From Coq Require Import List Bool Lia QArith.
+Local Close Scope Q_scope.
 From FDAV Require Import Model.Encoding.
 Import ListNotations.
 
@@ -151,3 +152,32 @@ Section Proofs.
     simpl. rewrite app_length, map_length. f_equal. apply IH.
   Qed.
 End Proofs.
+
+(* ---- F14: "last observation per grid point" is not the pooled mean ---- *)
+Local Open Scope Q_scope.
+Definition f14_grid : list Q := [0; 1; 2].
+Definition f14_content : @content Q Q := [[(0, 1); (1, 2); (2, 5)]; [(0, 3); (1, 0)]].
+
+(* two curves: at t=0 the values 1 and 3 are observed (mean 2, the code keeps 3); at t=1 the
+   values 2 and 0 (mean 1 with two observations; the code keeps the 0 and then gives it weight
+   0, i.e. treats the point as unobserved); at t=2 a single observation (both agree) *)
+Theorem mean_last_observation_refuted :
+  format_pooled Qeq_bool f14_grid f14_content = [(2, 2); (1, 2); (5, 1)] /\
+  format_last Qeq_bool f14_grid f14_content = [(3, 1); (0, 0); (5, 1)] /\
+  mean_pooled Qeq_bool f14_grid f14_content = [2; 1; 5] /\
+  mean_last Qeq_bool f14_grid f14_content = [3; 0; 5] /\
+  ~ (nth 0 (mean_last Qeq_bool f14_grid f14_content) 0 == nth 0 (mean_pooled Qeq_bool f14_grid f14_content) 0).
+Proof.
+  repeat split; try (vm_compute; reflexivity).
+  intro H. vm_compute in H. discriminate H.
+Qed.
+
+(* where every grid point carries exactly one non-zero observation the two coincide *)
+Theorem mean_last_agrees_single : forall (t v : Q),
+  Qeq_bool v 0 = false ->
+  format_last Qeq_bool [t] [[(t, v)]] = [(v, 1)] /\ mean_last Qeq_bool [t] [[(t, v)]] = [v].
+Proof.
+  intros t v H. unfold mean_last, format_last, obs_at. simpl.
+  assert (E : Qeq_bool t t = true) by (apply Qeq_bool_iff; reflexivity).
+  rewrite E. simpl. rewrite H. split; reflexivity.
+Qed.
